@@ -24,7 +24,7 @@ func init() {
 		Rule:        "same program/fault space as C10 with the pool forced on; the pool logs every Get/Put stamped with the API call and transport op in progress, hands the most recently returned buffer to the next taker and fills returned buffers with 0xDD. non-trivial = at least one Get and a non-default choice; distinct by observation hash",
 		Assumptions: []string{"sharing: 2-3 connections with one pool under the controlled scheduler (plain and -race builds), Get/Put are scheduling points, preemption-bounded", "races = those ThreadSanitizer reports on explored schedules"},
 		Flavour:     "mixed",
-		Budget:      map[string]time.Duration{"quick": 100 * time.Second, "thorough": 25 * time.Minute},
+		Budget:      map[string]time.Duration{"quick": 100 * time.Second, "thorough": 40 * time.Minute},
 		Bound:       map[string]string{"quick": "deviations <= 2 (a fault is one deviation), <= 2 messages", "thorough": "deviations <= 2 over the whole product (3 messages, all boundary sizes), <= 3 on a sub-lattice (B in {125,300}, every fourth size)"},
 		Scenarios: func(tier string) []*explore.Scenario {
 			return append(wScenarios("c20", tier, c20Body), c20ShareScenarios(tier)...)
